@@ -113,6 +113,7 @@ func main() {
 		rules.S5(rc)
 		rules.S7(rc)
 		rules.S9(rc)
+		rules.S11(rc)
 		for _, o := range s.Obs {
 			fmt.Println(o.V, o.Rule, o.Key, o.Detail)
 		}
@@ -232,6 +233,17 @@ func main() {
 		fmt.Println("ok", n, time.Since(t0))
 	case "ec":
 		rules.EC(rc, nil, 0)
+		n := 0
+		for _, o := range s.Obs {
+			if o.Verdict != core.OK {
+				fmt.Println(o.V, o.Rule, o.Key, o.Pos, "::", o.Detail)
+			} else {
+				n++
+			}
+		}
+		fmt.Println("ok", n)
+	case "e1":
+		rules.E1(rc, nil, 0)
 		n := 0
 		for _, o := range s.Obs {
 			if o.Verdict != core.OK {
